@@ -119,8 +119,21 @@ class ImplRunner:
                 else:
                     # both key-prefix styles, mixed within one file (deterministic in the term)
                     compact = (len(repr(t)) % 3) == 0
+                    arg = pts
+                    if not single and not bad and len(pts) >= 2:
+                        # the documented argument is an iterable: also a tuple, a lazy generator, and (CSV
+                        # only: MemoryStorage keeps the caller's objects) a generator that recycles ONE Point
+                        # object, re-assigning its attributes before each yield — what is stored is the point
+                        # as it was when it was handed over
+                        form = len(repr(t)) % 5
+                        if form == 1:
+                            arg = tuple(pts)
+                        elif form == 2:
+                            arg = (p for p in pts)
+                        elif form == 3 and self.cfg[0] == "csv" and not now:
+                            arg = self._recycled(pts)
                     n = (db.insert(pts[0], m, compact_key_prefixes=compact) if single
-                         else db.insert_multiple(pts, m, compact_key_prefixes=compact))
+                         else db.insert_multiple(arg, m, compact_key_prefixes=compact))
                 return f"ok {n}"
 
             if now:
@@ -238,6 +251,12 @@ class ImplRunner:
             return "ok unit"
         raise ValueError(f"unknown op {t!r}")
 
+    def _recycled(self, pts):
+        one = self.tf.Point()
+        for p in pts:
+            one.time, one.measurement, one.tags, one.fields = p.time, p.measurement, p.tags, p.fields
+            yield one
+
     def _insert_malformed(self, t, pts, m, via, kind):
         """an insert_multiple that aborts for another reason than a non-Point element: a Point whose dict was
         mutated to an invalid state (ValueError), or the caller's iterable raising. The expected state is the
@@ -314,7 +333,7 @@ class ImplRunner:
             from datetime import datetime
 
             return V.show_list(
-                lambda x: V.show_time(datetime.fromtimestamp(x).astimezone(V.UTC)),
+                lambda x: V.show_time(datetime.fromtimestamp(x, V.UTC)),
                 idx.get_timestamps(m),
             )
         if k == "tagvalues":
